@@ -686,6 +686,15 @@ static vector<Cfg> configs(int n, const string& set) {
       out.push_back(c);
     }
   }
+  // the polled devices answer (a value is stored in every selected message) - all of them, or all but one
+  for (const string& ip : ips) {
+    if (ip.find('0') != string::npos || ip.find('-') != string::npos) continue;
+    for (int sl : {9, 0, n - 1}) {
+      Cfg c;
+      c.n = n; c.ip = ip; c.dt = 1; c.warm = sl == 9 ? 50 : 0; c.silent = sl;
+      out.push_back(c);
+    }
+  }
   return out;
 }
 
@@ -696,6 +705,7 @@ static bool parseCfg(const std::map<string, string>& m, Cfg* c) {
   c->dt = atoi(get("dt").c_str());
   c->warm = atoi(get("warm").c_str());
   c->chain = get("chain").empty() ? -1 : atoi(get("chain").c_str());
+  c->silent = get("silent").empty() ? -1 : atoi(get("silent").c_str());
   if (c->n < 1 || c->n > MAXSLOT || static_cast<int>(c->ip.size()) != c->n || c->dt < 0 || c->warm < 0) return false;
   for (char ch : c->ip) if (ch != '-' && (ch < '0' || ch > '9')) return false;
   return true;
